@@ -25,6 +25,8 @@ pub struct Resource<T: 'static> {
     scopes: Signal<Vec<SuspenseScope>>,
     /// A list of suspense guards that are currently active.
     guards: Signal<Vec<SuspenseTaskGuard>>,
+    /// The number of the fetch that was started last.
+    latest_fetch: Signal<u64>,
 }
 
 impl<T: 'static> Resource<T> {
@@ -40,6 +42,7 @@ impl<T: 'static> Resource<T> {
             refetch: create_signal(Box::new(move || refetch().boxed_local())),
             scopes: create_signal(Vec::new()),
             guards: create_signal(Vec::new()),
+            latest_fetch: create_signal(0),
         }
     }
 
@@ -53,10 +56,18 @@ impl<T: 'static> Resource<T> {
                 self.guards.update(|guards| guards.push(guard));
             }
 
+            let fetch = self.latest_fetch.get_untracked() + 1;
+            self.latest_fetch.set_silent(fetch);
             let fut = self.refetch.update_silent(|f| f());
 
             sycamore_futures::create_suspense_task(async move {
                 let value = fut.await;
+                // A fetch that was superseded while it was finishing (its last step, or something
+                // that step triggered, changed a dependency) was aborted too late to be stopped:
+                // only the latest fetch delivers. The guards stay until that one does.
+                if self.latest_fetch.get_untracked() != fetch {
+                    return;
+                }
                 batch(move || {
                     self.value.set(Some(value));
                     self.is_loading.set(false);
